@@ -28,11 +28,12 @@ TDone ==
      ELSE IF Fuzzed /\ r.ran # {0}
      THEN \* arbitrary body bytes: anything but a malformed response; user code at most once
           Cur.status \notin {405, 415, 505}
-     ELSE /\ Cur.code \in r.codes /\ Cur.ran \in r.ran /\ Cur.iran \in r.iran
+     ELSE \E v \in {r} \cup Alternative(sc) :
+          /\ Cur.code \in v.codes /\ Cur.ran \in v.ran /\ Cur.iran \in v.iran
           /\ Cur.status = (IF RawBody(sc) /\ Cur.code # 0 THEN HTTPStatusOf(Cur.code) ELSE 200)
-          /\ (r.codes # 0..16 /\ Cur.ran = 1 => Cur.msgs = r.msgs)
+          /\ (v.codes # 0..16 /\ Cur.ran = 1 => Cur.msgs = v.msgs)
           /\ (Cur.ran = 0 => Cur.msgs = <<>>)
-          /\ (Cur.ran = 1 => /\ DlOK(r.dl, Cur.dl)
+          /\ (Cur.ran = 1 => /\ DlOK(v.dl, Cur.dl)
                              /\ Cur.proc = "/verif.v1.Svc/Method" /\ Cur.stype = StreamTypeOf(sc.kind))
 
 Normal == TReset \/ ((TStage \/ TDone) /\ Consume /\ UNCHANGED failed)
